@@ -239,6 +239,18 @@ class Exec(Core):
     # ---- truthiness / equality
     def truth(self, v):
         """z3 Bool (or python bool) for the truth value of v."""
+        if self.is_unresolved(v):
+            simple = (VInt, VBool, VStr, VNone, VOpaque)
+            if all(isinstance(x, simple) for _, x in v.alts):
+                terms = []
+                for g, x in v.alts:
+                    t = self.truth(x)
+                    if t is False:
+                        continue
+                    terms.append(g if t is True else z3.And(g, t))
+                if not terms:
+                    return False
+                return z3.Or(*terms) if len(terms) > 1 else terms[0]
         v = self.res(v)
         if isinstance(v, VBool):
             c = v.concrete()
